@@ -178,6 +178,24 @@ Theorem C11_guard_both_entry_points :
 Proof. exact guard_both_entry_points. Qed.
 Print Assumptions C11_guard_both_entry_points.
 
+(* 10. lifecycle: exporting the application state (for zero height: all rewards withdrawn, every validator's
+       and delegation's distribution records rebuilt at height 0; or as is) and importing it into a fresh
+       application keeps every validator's tokens and shares and every delegation, and preserves the
+       invariants — C11_invariant / C11_sum_shares / C11_refcount / liveness above quantify over operation
+       lists that contain it *)
+Theorem C11_export_import : forall s s' zero ord v vs',
+  SInv s -> exec s (ExportImport zero ord) = Ok s' -> get_val v s' = Some vs' ->
+  SInv s' /\ exists vs, get_val v s = Some vs /\
+    v_tokens vs' = v_tokens vs /\ v_shares vs' = v_shares vs /\ v_dels vs' = v_dels vs.
+Proof. exact export_import_identity_on_stake. Qed.
+Print Assumptions C11_export_import.
+
+(* 11. an approveShares (or anything else) made in a call frame that reverts afterwards takes no effect:
+       transfer-from moves shares only under an allowance that took effect (C11_transfer_from_exact) *)
+Theorem C11_reverted_no_effect : forall s o, step s (Reverted o) = (s, false).
+Proof. exact reverted_no_effect. Qed.
+Print Assumptions C11_reverted_no_effect.
+
 Theorem C11_nonvacuous :
   all_ok (gen_state 2) ex_ops = true /\
   val_dget (run (gen_state 2) ex_ops) 0 3 = dec_of_int 7 + dec_of_int (20 * prec) /\
